@@ -332,6 +332,20 @@ func (c *Ctx) producibleTokens() map[int64]bool {
 			}
 			for _, rt := range plainOrigins.Roots(st.Val) {
 				switch rt.Kind {
+				case "param":
+					// a token kind handed to an arm helper: the constants passed at its call sites
+					if par, ok := rt.V.(*ssa.Parameter); ok && len(rt.Path) == 0 {
+						pi := paramIndex(par)
+						for _, g := range rr.Order {
+							for _, cs := range callsTo(g, f) {
+								if pi < len(cs.Call.Args) {
+									if k, ok := constIntArg(cs.Call.Args[pi]); ok {
+										out[k] = true
+									}
+								}
+							}
+						}
+					}
 				case "const":
 					if k, ok := constIntArg(rt.V); ok {
 						out[k] = true
